@@ -134,12 +134,16 @@ Definition relabelled (lp : proc) : proc :=
          (Some (noise_sem (p_noise lp)))          (* Processor.noise returns NoiseModel() when unset *)
          (p_filter lp).
 
-Definition from_local (lp : proc) : res proc :=
+(* from_local_processor.  [old = false]: the code as it is now (repo commit 55925315): a BasicState input is passed to
+   with_input without its heralded modes.  [old = true]: the code before that repair passed the stored full state. *)
+Definition from_local_gen (old : bool) (lp : proc) : res proc :=
   if msize lp =? 0 then Err XValue 70 else
   match p_in lp with
   | None => Ok (relabelled lp)
-  | Some st => apply_op (relabelled lp) (OInput st)     (* rp.with_input(processor.input_state) *)
+  | Some st => apply_op (relabelled lp) (OInput (if old then st else remove_her (p_her lp) 0 st))
   end.
+Definition from_local : proc -> res proc := from_local_gen false.          (* the current code *)
+Definition from_local_old_code : proc -> res proc := from_local_gen true.  (* historical *)
 
 (* ------------------------------------------------------------------ platform *)
 Record platform := mkpf {
